@@ -217,7 +217,7 @@ class RecSpan(Span):
         self.proc.j.seam(self.proc._rname, 'span.close')
         self.closed += 1
         self.proc.j.rec('span_close', self.proc._rname, self._name, self.tp_id, threading.current_thread().name,
-                        self.proc.where())
+                        self.proc.where(), self.sid)
 
 
 class RecSpanProcessor(_RecMixin, SpanProcessor):
@@ -230,8 +230,9 @@ class RecSpanProcessor(_RecMixin, SpanProcessor):
     def create_span(self, name, context_id, tracepoint_id):
         self.j.seam(self._rname, 'create_span')
         s = RecSpan(self, name, context_id, tracepoint_id)
+        s.sid = len(self.spans)
         self.spans.append(s)
-        self.j.rec('span_open', self._rname, name, tracepoint_id, threading.current_thread().name, self.where())
+        self.j.rec('span_open', self._rname, name, tracepoint_id, threading.current_thread().name, self.where(), s.sid)
         return s
 
     def current_span(self):
